@@ -887,7 +887,7 @@ class OverlayStore(Store):
         if self.contains(key):
             if len(self.listdir(key)) == 0:
                 if self.overlay.contains(key):
-                    self.overlay.remove(key)
+                    self.overlay.removedir(key)
                 else:
                     self.removed.add(key)
         self.on_removed(key)
